@@ -85,6 +85,25 @@ pub(crate) fn needs_escape(name: &str) -> bool {
         .contains('_')
 }
 
+/// Folds a list of expressions into a balanced tree of the given associative
+/// operation, keeping the order of the operands. The depth of the tree grows
+/// with the logarithm of the number of operands, so that aggregating over a
+/// large set does not produce an expression whose traversal overflows the stack.
+fn fold_balanced(op: BinOp, mut exps: Vec<Exp>, empty: f64) -> Exp {
+    match exps.len() {
+        0 => Exp::Number(empty),
+        1 => exps.pop().unwrap_or(Exp::Number(empty)),
+        n => {
+            let right = exps.split_off(n / 2);
+            Exp::BinOp(
+                op,
+                fold_balanced(op, exps, empty).to_box(),
+                fold_balanced(op, right, empty).to_box(),
+            )
+        }
+    }
+}
+
 /// Folds a list of expressions into a chain of binary exclusive disjunctions,
 /// which computes the parity (odd number of true values) of the whole list.
 fn fold_xor(exps: Vec<Exp>) -> Exp {
@@ -564,10 +583,7 @@ impl PreExp {
                     BlockFunctionKind::Max => Ok(Exp::Max(parsed_exp)),
                     BlockFunctionKind::Avg => {
                         let len = parsed_exp.len();
-                        let mut sum = parsed_exp.pop().unwrap_or(Exp::Number(0.0));
-                        for exp in parsed_exp.into_iter().rev() {
-                            sum = Exp::BinOp(BinOp::Add, exp.to_box(), sum.to_box());
-                        }
+                        let sum = fold_balanced(BinOp::Add, parsed_exp, 0.0);
                         Ok(Exp::BinOp(
                             BinOp::Div,
                             sum.to_box(),
@@ -644,18 +660,10 @@ impl PreExp {
                 .map_err(|e| e.add_span(self.span()))?;
                 match f.kind {
                     BlockScopedFunctionKind::Sum => {
-                        let mut sum = results.pop().unwrap_or(Exp::Number(0.0));
-                        for result in results.into_iter().rev() {
-                            sum = Exp::BinOp(BinOp::Add, result.to_box(), sum.to_box());
-                        }
-                        Ok(sum)
+                        Ok(fold_balanced(BinOp::Add, results, 0.0))
                     }
                     BlockScopedFunctionKind::Prod => {
-                        let mut prod = results.pop().unwrap_or(Exp::Number(1.0));
-                        for result in results.into_iter().rev() {
-                            prod = Exp::BinOp(BinOp::Mul, result.to_box(), prod.to_box());
-                        }
-                        Ok(prod)
+                        Ok(fold_balanced(BinOp::Mul, results, 1.0))
                     }
                     BlockScopedFunctionKind::Min => Ok(Exp::Min(results)),
                     BlockScopedFunctionKind::Max => Ok(Exp::Max(results)),
@@ -664,10 +672,7 @@ impl PreExp {
                     BlockScopedFunctionKind::Xor => Ok(fold_xor(results)),
                     BlockScopedFunctionKind::Avg => {
                         let len = results.len();
-                        let mut sum = results.pop().unwrap_or(Exp::Number(0.0));
-                        for result in results.into_iter().rev() {
-                            sum = Exp::BinOp(BinOp::Add, result.to_box(), sum.to_box());
-                        }
+                        let sum = fold_balanced(BinOp::Add, results, 0.0);
                         Ok(Exp::BinOp(
                             BinOp::Div,
                             sum.to_box(),
